@@ -52,7 +52,13 @@ def circle_exact_body(ctx, case):
     pupil, _ = aot()
     r, size, cx, cy, origin = case["r"], case["size"], case["cx"], case["cy"], case["origin"]
     want, nb = circle_oracle_exact(r, size, cx, cy, origin)
-    got = pupil.circle(r, size, (cx, cy), origin)
+    # the centre as a tuple, a list, or ONE float64 array that the caller keeps and passes to every call
+    form = case.get("centre_as", "tuple")
+    carr = np.array([cx, cy], dtype=np.float64)
+    centre = (cx, cy) if form == "tuple" else [cx, cy] if form == "list" else carr
+    ctx.classes["centre_as_" + form] += 1
+    got = pupil.circle(r, size, centre, origin)
+    ctx.require(carr[0] == cx and carr[1] == cy, "circle modified the centre array it was given: %r -> %r" % ((cx, cy), carr.tolist()))
     if float(r).is_integer() and 0 <= r <= 120:
         # the same radius as a NumPy integer scalar of a narrow type (a parameter read from a uint8 / int16 array)
         import warnings as _w
@@ -75,9 +81,11 @@ def circle_exact_body(ctx, case):
             ctx.equal(f(got), got, "circle centred: %s symmetry" % name)
     # nested in r
     r2 = case["r2"]
-    big = pupil.circle(max(r, r2), size, (cx, cy), origin)
-    small = pupil.circle(min(r, r2), size, (cx, cy), origin)
+    big = pupil.circle(max(r, r2), size, centre, origin)
+    small = pupil.circle(min(r, r2), size, centre, origin)
     ctx.require(np.all(small <= big), "circle: not nested in radius (%r vs %r)" % (r, r2))
+    ctx.equal(pupil.circle(r, size, centre, origin), want, "circle(%r,%r,(%r,%r),%r) called again with the same centre object vs exact indicator" % (r, size, cx, cy, origin))
+    ctx.require(carr[0] == cx and carr[1] == cy, "circle modified the centre array it was given: %r -> %r" % ((cx, cy), carr.tolist()))
     # integer shift of the centre = shift of the mask on the pixels that stay in frame
     kx, ky = case["kx"], case["ky"]
     sh = pupil.circle(r, size, (cx + kx, cy + ky), origin)
@@ -112,7 +120,7 @@ def circle_exact_cases(draw):
         cy = draw(gen.dyadic(-size, size))
         r = draw(gen.dyadic(0, 20))
     return {"r": r, "size": size, "cx": cx, "cy": cy, "origin": origin, "r2": draw(gen.dyadic(0, 20)),
-            "kx": draw(st.integers(-3, 3)), "ky": draw(st.integers(-3, 3))}
+            "kx": draw(st.integers(-3, 3)), "ky": draw(st.integers(-3, 3)), "centre_as": draw(st.sampled_from(["tuple", "tuple", "list", "array", "array"]))}
 
 
 def circle_float_body(ctx, case):
